@@ -294,7 +294,16 @@ func (r *replayer) spawnClose() {
 	go func() {
 		r.c.register("X")
 		r.emit(map[string]interface{}{"k": "close_call"})
-		err := r.cli.Close()
+		var err error
+		func() {
+			defer func() {
+				if x := recover(); x != nil {
+					r.emit(map[string]interface{}{"k": "libpanic", "report": fmt.Sprint("Close panicked: ", x)})
+					err = errors.New("panic")
+				}
+			}()
+			err = r.cli.Close()
+		}()
 		// a goroutine that has signalled its WaitGroup may need a moment to leave the scheduler's books
 		alive := libGoroutinesOf(r.cli)
 		for i := 0; i < 50 && len(alive) > 0; i++ {
@@ -382,6 +391,17 @@ func runSchedule(tw *traceWriter, sch cliSchedule) {
 			id := modelID(st.Deliver.ID)
 			if st.Deliver.Kind == "garbage" {
 				data = []byte{0, 1, 0, 0, 9, 9, 9, 9, 1, 2, 3, 4, 5, 6, 7, 8, 9, 10, 11, 12, 13}
+				if sch.Tr%2 == 0 {
+					// undecodable in a subtler way: a response for the in-flight id whose header length stops in the
+					// middle of its last attribute, with the rest of the attribute still present behind it
+					data = respMessage(cliID(1), 17)
+					m2 := new(stun.Message)
+					_ = stun.Decode(data, m2)
+					m2.Add(stun.AttrRealm, []byte("example.org"))
+					data = append([]byte(nil), m2.Raw...)
+					n := len(data) - 20 - 8
+					data[2], data[3] = byte(n>>8), byte(n)
+				}
 			} else {
 				// datagram sizes up to the client's 1024-byte read buffer (exactly full included)
 				extra := []int{3 + id, 3 + id, 488, 996, 1000}[sch.Tr%5]
@@ -518,7 +538,10 @@ func runSchedule(tw *traceWriter, sch cliSchedule) {
 		stopDrain = goFree()
 	}
 	cdone := make(chan struct{})
-	go func() { cli.Close(); close(cdone) }() //nolint
+	go func() {
+		defer func() { recover(); close(cdone) }() //nolint
+		cli.Close()                                 //nolint
+	}()
 	time.Sleep(100 * time.Microsecond)
 	r.conn.forceClose()
 	select {
